@@ -44,6 +44,9 @@ func Record(sut SUT, seed int64, traces, length int, out string) (events int, er
 			if panicked {
 				break
 			}
+			if d, ok := sut.(interface{ Dead() bool }); ok && d.Dead() {
+				break // the object declared itself unusable (e.g. after a misuse panic)
+			}
 		}
 	}
 	return events, nil
